@@ -133,8 +133,8 @@ Theorem collapse_pair_order_invariant :
 Proof. intros A. exact collapse_pair_order_l. Qed.
 
 (* <var>_number (and with it the NaN-ness of mean and std) can be computed from validity flags alone: any
-   h, g with "g (h a) is NaN exactly when f a is" count the same -- this is what run_counts evaluates for the
-   correspondence (h = the flags of all lanes of a point, g = mask_lane j) *)
+   h, g with "g (h a) is NaN exactly when f a is" count the same -- this is what run_collapse_m evaluates for the
+   correspondence (h = the validity flags of all lanes of a point, g = mask_lane j) *)
 Theorem collapse_number_by_mask :
   forall (A B X Y : Type) (f : A -> option X) (g : B -> option Y) (h : A -> B) (d : A) refrow otherrow (vals : list A) n c,
   (forall a, f a = None <-> g (h a) = None) ->
